@@ -238,6 +238,7 @@ class Broker:
 
     def go_down(self):
         self.up = False
+        self.incarnation = getattr(self, "incarnation", 0) + 1     # requests still queued inside the broker die with it
         for l in list(self.links):
             l.reset()
         self.links = []
@@ -388,6 +389,7 @@ class SimCluster:
                 self.reply(ctx, resp)
                 return
         if fate.kind == "delay":
+            ctx["incarnation"] = getattr(broker, "incarnation", 0)
             self.net.call_later(fate.delay, self._dispatch, ctx)
             return
         self._dispatch(ctx)
@@ -396,6 +398,10 @@ class SimCluster:
         if ctx["link"].server_gone or ctx["link"].severed:
             # connection vanished while the request was delayed: a real broker would still apply it
             pass
+        if "incarnation" in ctx and (ctx["incarnation"] != getattr(ctx["broker"], "incarnation", 0) or not ctx["broker"].up):
+            # ... but not one that went down in the meantime: its request queue is gone
+            ctx["ev"]["dropped_by_broker_restart"] = True
+            return
         h = getattr(self, "h_" + ctx["api"])
         resp = h(ctx)
         if ctx["fate"].kind == "error_after" and resp is not PARKED and resp is not None:
